@@ -418,6 +418,27 @@ Section ChainProofs.
     destruct disabled; [discriminate|]. destruct (parse leaf); [|discriminate].
     apply validate_never_panics.
   Qed.
+  Lemma chain_leaf_only fps :
+    (forall chain, snd (verify_peer raw cert parse H false fps chain) = Ok tt ->
+       exists leaf rest c,
+         chain = leaf :: rest /\ parse leaf = Some c /\ cert_matches cert H fps c /\
+         fst (verify_peer raw cert parse H false fps chain) = Some leaf) /\
+    (forall leaf rest,
+       (forall c, parse leaf = Some c -> ~ cert_matches cert H fps c) ->
+       snd (verify_peer raw cert parse H false fps (leaf :: rest)) <> Ok tt) /\
+    (forall disabled leaf rest,
+       verify_peer raw cert parse H disabled fps (leaf :: rest) =
+       verify_peer raw cert parse H disabled fps [leaf]).
+  Proof.
+    repeat split.
+    - exact (verify_peer_accept_leaf fps).
+    - exact (verify_peer_nonleaf_rejected fps).
+  Qed.
+
+  Lemma chain_total disabled fps :
+    verify_peer raw cert parse H disabled fps [] = (None, Err "no-remote-certificate") /\
+    (forall chain, snd (verify_peer raw cert parse H disabled fps chain) <> Panic).
+  Proof. split; [reflexivity | exact (verify_peer_never_panics disabled fps)]. Qed.
 End ChainProofs.
 
 (* altering one character to a different letter/digit (not its case variant)
